@@ -149,6 +149,11 @@ pub struct EnvOpts {
     pub deagg_threshold: usize,
     /// Extra TOML lines appended to the config file.
     pub extra_toml: String,
+    /// Timing values set on the Config object after it was verified (the
+    /// configuration check refuses margins that are not smaller than the
+    /// lifetimes; a margin larger than the lifetime makes everything due
+    /// at once, which stands in for the passing of time).
+    pub timing_override: Vec<(String, u32)>,
 }
 
 impl Default for EnvOpts {
@@ -158,6 +163,7 @@ impl Default for EnvOpts {
             agg_threshold: 100,
             deagg_threshold: 90,
             extra_toml: String::new(),
+            timing_override: Vec::new(),
         }
     }
 }
@@ -245,6 +251,31 @@ impl Env {
             format!("config: {e}")
         })?;
         config.process().map_err(|e| format!("config: {e}"))?;
+        for (key, value) in &opts.timing_override {
+            let t = &mut config.issuance_timing;
+            match key.as_str() {
+                "timing_publish_next_hours" => {
+                    t.timing_publish_next_hours = *value
+                }
+                "timing_publish_next_jitter_hours" => {
+                    t.timing_publish_next_jitter_hours = *value
+                }
+                "timing_publish_hours_before_next" => {
+                    t.timing_publish_hours_before_next = *value
+                }
+                "timing_roa_valid_weeks" => t.timing_roa_valid_weeks = *value,
+                "timing_roa_reissue_weeks_before" => {
+                    t.timing_roa_reissue_weeks_before = *value
+                }
+                "timing_child_certificate_valid_weeks" => {
+                    t.timing_child_certificate_valid_weeks = *value
+                }
+                "timing_child_certificate_reissue_weeks_before" => {
+                    t.timing_child_certificate_reissue_weeks_before = *value
+                }
+                other => return Err(format!("unknown timing key {other}")),
+            }
+        }
         Ok(config)
     }
 
